@@ -1247,11 +1247,14 @@ def defaults_outcome(c, doc, done):
         return ("unreadable", None, None, None, doc2, None)
     rd = impl_json_read(fresh(c)[0], json.dumps(doc2))
     expect = json_clone(full[1][0])
-    for path, f in sorted(done, key=lambda pf: len(pf[0])):
-        o = expect
-        for p in out_path(path, parsed, named):
-            o = o[p]
-        o[f["name"]] = default_py(f["default"], f["type"], named)
+    try:
+        for path, f in sorted(done, key=lambda pf: len(pf[0])):
+            o = expect
+            for p in out_path(path, parsed, named):
+                o = o[p]
+            o[f["name"]] = default_py(f["default"], f["type"], named)
+    except (KeyError, IndexError, TypeError):
+        return ("unreadable", None, None, None, doc2, None)      # the full document is itself misread (corr:json-read reports it)
     if rd[0] != "ok" or len(rd[1]) != 1:
         return ("raised", rd[1] if rd[0] != "ok" else "record-count-differs", show_val(expect), False, doc2, None)
     return ("ok", "R:" + show_val(rd[1][0]), "R:" + show_val(expect), same_by_value(rd[1][0], expect), doc2, rd[1][0])
